@@ -416,19 +416,29 @@ func main() {
 
 		minPath := filepath.Join(scratch, "min.json")
 
-		if cfg.Race {
-			// the race detector reports a given pair of stacks once per process, so
-			// in-process minimisation cannot observe the failure twice: keep the run
-			// as found (the scenario and the decision list are already explicit)
-			f["trace"] = strings.Split(tailStr(raceReport(wlog), 120), "\n")
-			fd, _ = json.MarshalIndent(f, "", " ")
-			os.WriteFile(minPath, fd, 0o644)
-		} else {
-			out, err := run(scratch, workerEnv("SIM_MODE=shrink", "SIM_IN="+failPath, "SIM_OUT="+minPath), bin, "-test.run", "TestSim", "-test.timeout", "0")
-			if _, serr := os.Stat(minPath); err != nil || serr != nil {
+		{
+			env := workerEnv("SIM_MODE=shrink", "SIM_IN="+failPath, "SIM_OUT="+minPath)
+			if cfg.Race {
+				// every candidate is judged in a process of its own (the detector reports a
+				// pair of stacks once per process): fewer trials
+				env = append(env, "SIM_SHRINK_BUDGET=120")
+			}
+
+			out, err := run(scratch, env, bin, "-test.run", "TestSim", "-test.timeout", "0")
+			if _, serr := os.Stat(minPath); err != nil && serr != nil {
 				fmt.Fprintln(os.Stderr, tailStr(out, 60))
 				fmt.Fprintf(os.Stderr, "check: minimisation failed: exit 2\n")
 				exit(2)
+			}
+
+			if cfg.Race {
+				var m map[string]any
+
+				md, _ := os.ReadFile(minPath)
+				json.Unmarshal(md, &m)
+				m["trace"] = strings.Split(tailStr(raceReport(wlog), 120), "\n")
+				md, _ = json.MarshalIndent(m, "", " ")
+				os.WriteFile(minPath, md, 0o644)
 			}
 		}
 
